@@ -8,10 +8,14 @@
    programs without isolate, multiset mirror at quiescence for connect/try_connect/query programs, agreement of the two
    semantics. REFUTED (c17_refuted_*, concrete schedules by vm_compute, each reproduced on the implementation): the full
    property — no panic, serialisable outcome — which fails because every mutation is two or more separately locked critical
-   sections (D11). These are the known findings of KNOWN_FINDINGS.txt; no theorem claims serialisability. *)
+   sections (D11). These are the known findings of KNOWN_FINDINGS.txt. Serialisability is claimed only by the two BOUNDED
+   theorems (a finite space swept inside Coq by vm_compute and lifted with forallb_forall, the bound stated in the theorem):
+   outside the classes of ConcClass.known_class every schedule of every two-thread single-call scenario on two nodes is
+   serialisable; no theorem claims it for unbounded scenarios, and c17_refuted_cycle shows why one must not. *)
 From Coq Require Import Permutation.
 From Gdsl.Model Require Import Spec Conc.
-From Gdsl.Proofs Require Import ConcProof ConcCycle.
+From Gdsl.Model Require Import ConcClass.
+From Gdsl.Proofs Require Import ConcProof ConcCycle ConcClassProof.
 
 (* in every reachable configuration a thread holds at most one guard, and only for the critical section it is parked at *)
 Theorem c17_one_guard_per_thread :
@@ -87,6 +91,28 @@ Theorem c17_atomic_refines_guards :
          greach keqb directed (ginit keqb directed h progs) g /\ gc_cfg g = c /\ gc_held g = [].
 Proof. exact cstep_refines_gstep. Qed.
 Print Assumptions c17_atomic_refines_guards.
+
+(* BOUNDED (finite space, the bound is in the statement; not the unbounded property): every scenario of the space small_scenarios (2 nodes, every initial edge list of length <= 2, two threads with one call each out of all 28/24 calls) that is outside the known-finding classes: every maximal schedule ends with no panic, no poisoned lock, all threads done, and the outcome (results, final lists) of a serial schedule *)
+Theorem c17_small_outside_classes_serialisable :
+  forall (directed : bool) (h : heap nat nat nat) (threads : list (list (call nat nat)))
+         (sched : list nat),
+       In (h, threads) (small_scenarios directed) ->
+       known_class Nat.eqb directed h threads = None ->
+       let c0 := init_config Nat.eqb directed h threads in
+       In sched (explore Nat.eqb directed 200 c0 []) ->
+       no_panic (final Nat.eqb directed 200 c0 sched) = true /\
+       all_done (final Nat.eqb directed 200 c0 sched) = true /\
+       (exists s : list nat,
+          serial_from Nat.eqb directed c0 None false s = true /\
+          outcome_eqb Nat.eqb (final Nat.eqb directed 200 c0 s) (final Nat.eqb directed 200 c0 sched) = true).
+Proof. exact c17_small_outside_classes_serialisable. Qed.
+Print Assumptions c17_small_outside_classes_serialisable.
+
+(* BOUNDED: the same decision for the directed flavour with initial edge lists of length <= 3 (66640 scenarios) *)
+Theorem c17_len3_directed_outside_classes_good :
+  forallb (outside_good true) (scenarios3 true) = true.
+Proof. exact c17_len3_directed_outside_classes_good. Qed.
+Print Assumptions c17_len3_directed_outside_classes_good.
 
 (* REFUTATION: isolate || connect panics and poisons a lock *)
 Theorem c17_refuted_panic :
